@@ -434,6 +434,69 @@ func GenC13x(rng *rand.Rand, thorough bool, emit func(*Sx)) {
 			}
 		}
 	}
+	// (a2) consecutive complete transactions with DIFFERENT recipient lists: every transaction has its own
+	// status collector
+	type tx struct {
+		rcpts []string
+		st    map[string]bool // recipients for which the backend sets 550
+		bdat  bool
+	}
+	seqs := [][]tx{
+		{{[]string{"a@ok", "b@ok"}, map[string]bool{"b@ok": true}, true}, {[]string{"b@ok", "a@ok"}, map[string]bool{"b@ok": true}, true}},
+		{{[]string{"a@ok", "b@ok"}, map[string]bool{"a@ok": true}, true}, {[]string{"c@ok"}, map[string]bool{"c@ok": true}, true}},
+		{{[]string{"a@ok"}, nil, true}, {[]string{"a@ok", "a@ok", "b@ok"}, map[string]bool{"b@ok": true}, true}},
+		{{[]string{"a@ok", "b@ok"}, map[string]bool{"b@ok": true}, false}, {[]string{"b@ok"}, map[string]bool{"b@ok": true}, true}},
+		{{[]string{"a@ok", "b@ok"}, map[string]bool{"a@ok": true}, true}, {[]string{"b@ok", "c@ok"}, map[string]bool{"c@ok": true}, false}},
+		{{[]string{"a@ok"}, nil, true}, {[]string{"b@ok"}, nil, true}, {[]string{"c@ok", "a@ok"}, map[string]bool{"a@ok": true}, true}},
+	}
+	for _, sess := range []bool{true, false} {
+		for _, seq := range seqs {
+			cfg := DefaultCfg()
+			cfg.LMTP, cfg.LMTPSession = true, sess
+			f := newF(cfg)
+			f.hello()
+			for ti, t := range seq {
+				f.cmd(fmt.Sprintf("MAIL FROM:<s%d@ok>", ti), 250)
+				p := DefaultPlan()
+				for _, a := range t.rcpts {
+					f.cmd("RCPT TO:<"+a+">", 250)
+				}
+				seen := map[string]bool{}
+				for _, a := range t.rcpts {
+					if sess && t.st[a] && !seen[a] {
+						p.Status = append(p.Status, StatusCall{Addr: a, Err: rejectErr()})
+						seen[a] = true
+					}
+				}
+				// expected: the first occurrence of an address with a status gets it, the rest the return value (nil)
+				used := map[string]bool{}
+				for _, a := range t.rcpts {
+					if sess && t.st[a] && !used[a] {
+						f.expect(550)
+						used[a] = true
+					} else {
+						f.expect(250)
+					}
+				}
+				f.script.Data = append(f.script.Data, p)
+				if t.bdat {
+					f.cmd("BDAT 3 LAST")
+					f.cut()
+					f.raw("abc")
+				} else {
+					// the 354 comes before the per-recipient replies
+					n := len(t.rcpts)
+					tail := append([]int(nil), f.codes[len(f.codes)-n:]...)
+					f.codes = append(f.codes[:len(f.codes)-n], 354)
+					f.codes = append(f.codes, tail...)
+					f.cmd("DATA")
+					f.raw("abc\r\n.\r\n")
+				}
+			}
+			f.cmd("QUIT", 221)
+			emit(RunConv(f.caseOf("C13", segStream(rng, f.out, f.cuts, 0, rawEOF))))
+		}
+	}
 	// (b) a transaction refused for its size must not leave anything behind for the next one
 	for _, sess := range []bool{true, false} {
 		for _, firstLast := range []string{"", " LAST"} {
